@@ -248,6 +248,9 @@ def run(ctx):
     cases = rt.generate(ctx, label="Gen_RoundTrip prescribed documents, 1 field", max_fields=1, faults=("none",), cfgs="StrictOnly")
     cases += rt.generate(ctx, label="Gen_RoundTrip prescribed documents, 2 fields (simulate)", max_fields=2, faults=("none",),
                          cfgs="StrictOnly", simulate=ctx.pick(1200, 25000))
+    # sequence groups: a plain list next to the members of TWO groups (numbers 1 and 2), up to three fields, exhaustive
+    cases += rt.generate(ctx, label="Gen_RoundTrip sequence groups (3 fields, exhaustive)", max_fields=3, faults=("none",), cfgs="StrictOnly",
+                         cats="{3, 14, 15, 28, 29}", limit=ctx.pick(1500, None))
     for k, case in enumerate(cases):
         ctx.case(("prescribed", str(case["m"]), str(case["inst"])))
         rt.check_roundtrip(ctx, case, ns_maps=rt.NS_MAPS if k % 3 == 0 else (None,), handlers=(), want=("C03",))
